@@ -19,6 +19,17 @@ recording environment: (routine, episode script, config).  Oracles:
     observation.  For the DQN family and PETS the observation argument of the
     module-level ``greedy_policy`` / ``mpc_action`` (wrapped from the test
     side) is compared with the environment's current observation.
+(c) sampled = produced (MR.Q, sub-check ``mrq_default_buffer``).  ``train_mrq``
+    is run with ``replay_buffer=None`` so that it builds its own subtrajectory
+    buffer; the class it instantiates (``rl_blox.algorithm.mrq.
+    SubtrajectoryReplayBufferPER``) is replaced from the test side by a
+    recording subclass for the duration of the call.  Every batch the routine
+    samples (encoder updates: per-step view; critic updates: reduced view) is
+    decoded through the self-describing observations and compared with the
+    environment log: up to and including its first terminated row a window
+    consists of consecutive steps of one episode, in order, none of them
+    truncated, each row carrying the action / reward / successor / flags of
+    that very step.
 """
 from __future__ import annotations
 
@@ -37,7 +48,11 @@ RULE = (
     "seeds, probe on/off, logger on/off), expanded deterministically from a drawn integer by the builders in "
     "this module (scripts of 1-12 step episodes ending terminated/truncated, constructed so that an episode "
     "ends inside the warm-up and another after it; capacities below the number of additions in about half of "
-    "the cases). Off-policy and tabular histories are non-trivial when the executed history contains >= 2 "
+    "the cases). mrq_default_buffer: (encoder_horizon, q_horizon) pairs from {1..5} x {1..6} (q_horizon >= "
+    "encoder_horizon + 3 in ~45% of the cases, encoder_horizon > q_horizon in ~20%), mostly truncation-ended "
+    "episodes of 1-12 steps (shorter and longer than both horizons), train_mrq building its own buffer; "
+    "non-trivial when encoder and critic batches were sampled after >= 2 stored episode ends of which >= 1 "
+    "was a truncation. Off-policy and tabular histories are non-trivial when the executed history contains >= 2 "
     "episode boundaries that are followed by a further stored transition, of which >= 1 lies after the warm-up; "
     "episodic collectors when >= 3 episodes were stored; vector collectors when >= 2 sub-environment episode "
     "ends are followed by a further stored row. Distinct = distinct (routine, script, warm-up, capacity / "
@@ -53,6 +68,10 @@ ASSUMPTIONS = [
     "MR.Q scripts end every episode of <= 2 steps by termination and capacities are >= 12 (subtrajectory "
     "buffer domain); PETS learning_starts >= 4",
     "action boxes have |bias| <= 1.5 * half-range so tanh-probe tags stay decodable in float32",
+    "mrq_default_buffer: the window clauses are applied to the prefix of each sampled window up to and including "
+    "its first terminated row (what the learning signals use, C07); a batch is only examined when an admissible "
+    "start existed at the moment of sampling (priority * mask_ is read for this precondition only); scripts are "
+    "constructed so that one exists when learning starts",
 ]
 
 QUICK = gen.tier() == "quick"
@@ -235,6 +254,60 @@ def build_offpolicy(name, seed):
             "logger": bool(r.random() < 0.4)}
 
 
+MRQ_HORIZONS = {
+    # (encoder_horizon, q_horizon)
+    "q>=enc+3": [(1, 4), (1, 5), (1, 6), (2, 5), (2, 6), (3, 6)],
+    "q=enc+1..2": [(1, 2), (1, 3), (2, 3), (2, 4), (3, 4), (3, 5)],
+    "enc>q": [(2, 1), (3, 1), (3, 2), (5, 3), (4, 1), (5, 1), (5, 2)],  # (5, 3) is the library default
+    "enc=q": [(1, 1), (2, 2), (3, 3)],
+}
+
+
+def build_mrq_default(name, seed):
+    """train_mrq with its own (default) replay buffer: horizons, truncation-heavy scripts, small budgets."""
+    r = np.random.default_rng([int(seed), sum(map(ord, name))])
+    u = r.random()
+    regime = "q>=enc+3" if u < 0.45 else "q=enc+1..2" if u < 0.6 else "enc>q" if u < 0.8 else "enc=q"
+    pool = MRQ_HORIZONS[regime]
+    eh, qh = (int(x) for x in pool[int(r.integers(0, len(pool)))])
+    H = max(eh, qh)
+    T = int(r.choice([40, 56, 72])) if QUICK else int(r.integers(40, 81))
+    style = str(r.choice(["trunc", "trunc", "mixed", "mixed", "mixed"]))
+
+    def end():
+        if style == "trunc":
+            return "trunc"
+        return str(r.choice(["trunc", "trunc", "trunc", "term", "term", "both"]))
+
+    # an admissible start must exist when learning starts: either a first episode of more than H + 1 steps
+    # (starts are released while it is still running) or a terminated first episode
+    if r.random() < 0.6:
+        first = [H + 2 + int(r.integers(0, 3)), end()]
+        base = H + 2
+    else:
+        first = [int(r.integers(1, 4)), "term"]
+        base = first[0]
+    L = base + int(r.integers(0, 7))
+    lens = (1, 2, 2, 3, 3, 4, 5, 6, 7, 9, 12)
+    script, n = [first], first[0]
+    while n < T + 12:
+        l = int(r.choice(lens))
+        script.append([l, end()])
+        n += l
+    # a truncated episode longer than every horizon and one shorter than H early after the warm-up
+    script[1] = [min(12, H + 2 + int(r.integers(0, 3))), "trunc"]
+    script[2] = [int(r.integers(1, H + 1)), "trunc"]
+    if r.random() < 0.75:
+        cap = 2 * T + 8  # every stored step and every episode-end row fits
+    else:
+        lo = max(12, 2 * H + 4)
+        cap = int(r.integers(lo, max(lo + 1, T // 2)))
+    cfg = {"total_timesteps": T, "learning_starts": L, "batch_size": int(r.choice([2, 3, 4])),
+           "seed": int(r.integers(0, 1000)), "net_seed": int(r.integers(0, 1000)), "probe": False,
+           "target_delay": int(r.choice([2, 3])), "encoder_horizon": eh, "q_horizon": qh, "buffer_size": cap}
+    return {"routine": name, "gen_seed": int(seed), "env": {"script": script, **_env_cfg(r, "mrq")}, "cfg": cfg}
+
+
 def build_episodic(name, seed):
     r = np.random.default_rng([int(seed), sum(map(ord, name))])
     discrete = bool(r.random() < 0.5)
@@ -365,6 +438,24 @@ def simplify_history(case):
                 ns = copy.deepcopy(s)
                 ns[i][0] = l - 1
                 yield _set(case, list(path), ns)
+
+
+def simplify_mrq_default(case):
+    """Few, large reductions (every candidate costs a training run with fresh XLA compilations)."""
+    cfg = case["cfg"]
+    T, L = cfg["total_timesteps"], cfg["learning_starts"]
+    for nt in (max(L + 6, T // 2), max(L + 6, T - 8)):
+        if nt < T:
+            yield _set(case, ["cfg", "total_timesteps"], nt)
+    if cfg["buffer_size"] < 2 * T + 8:
+        yield _set(case, ["cfg", "buffer_size"], 2 * T + 8)
+    if cfg["batch_size"] > 2:
+        yield _set(case, ["cfg", "batch_size"], 2)
+    s = case["env"]["script"]
+    if len(s) > 4:
+        yield _set(case, ["env", "script"], s[:max(4, len(s) // 2)])  # the script is cyclic
+    if any(e != "trunc" for _, e in s[1:]):
+        yield _set(case, ["env", "script"], [s[0]] + [[l, "trunc"] for l, _ in s[1:]])
 
 
 # ---------------------------------------------------------------------------
@@ -502,6 +593,215 @@ def run_offpolicy(case):
     return Outcome(labels=labels, nontrivial=nt,
                    fp=[name, case["env"]["script"], cfg.get("learning_starts", 0), cfg["buffer_size"], g0,
                        cfg["total_timesteps"]])
+
+
+# ---------------------------------------------------------------------------
+# oracle (c): what MR.Q samples from the buffer it builds itself
+
+_FIELDS = ("observation", "action", "reward", "next_observation", "terminated", "truncated")
+
+
+def _recording_buffer_class(orig, store, clock):
+    """Subclass of the buffer class train_mrq instantiates; records constructor arguments, additions
+    and every sampled batch (as numpy copies), then defers to the original class."""
+
+    class RecordingSubtrajectoryBuffer(orig):
+        def __init__(self, *args, **kwargs):
+            super().__init__(*args, **kwargs)
+            store["buffers"].append(self)
+            store["ctor"].append({"args": list(args), "kwargs": dict(kwargs)})
+
+        def add_sample(self, **sample):
+            store["adds"].append({k: copy.deepcopy(np.asarray(v)) for k, v in sample.items()})
+            return super().add_sample(**sample)
+
+        def sample_batch(self, batch_size, horizon, include_intermediate, rng):
+            n = len(self)
+            weight = np.asarray(self.priority.priority[:n], dtype=np.float64) * np.asarray(self.mask_[:n])
+            batch = super().sample_batch(batch_size, horizon, include_intermediate, rng)
+            store["samples"].append({
+                "n_steps": int(clock()), "batch_size": int(batch_size), "horizon": int(horizon),
+                "inter": bool(include_intermediate), "admissible": bool(n > 0 and np.sum(weight) > 0),
+                "arrays": {k: np.array(getattr(batch, k)) for k in _FIELDS},
+            })
+            return batch
+
+    return RecordingSubtrajectoryBuffer
+
+
+def _row_text(F, w, r, inter):
+    def g(k):
+        a = F[k][w]
+        if inter or k in ("reward", "terminated", "truncated"):
+            a = a[r]
+        return np.asarray(a).tolist()
+    if inter:
+        return (f"obs={_where(F['observation'][w][r])} reward={g('reward')} next={_where(F['next_observation'][w][r])} "
+                f"terminated={g('terminated')} truncated={g('truncated')}")
+    return f"reward={g('reward')} terminated={g('terminated')} truncated={g('truncated')}"
+
+
+def _check_sampled_windows(C, name, samples, tr, stats):
+    """Every window of every recorded batch against the transitions ``tr`` implied by the env log."""
+    index = {(t["episode"], t["t"] - 1): g for g, t in enumerate(tr)}
+    ep_len = {}
+    for t in tr:
+        ep_len[t["episode"]] = max(ep_len.get(t["episode"], 0), t["t"])
+    for i, smp in enumerate(samples):
+        inter, h, F = smp["inter"], smp["horizon"], smp["arrays"]
+        view = "encoder" if inter else "critic"
+        pre = f"{name}.{view}.window"
+        if not smp["admissible"]:
+            stats["skipped_no_admissible_start"] += 1
+            continue
+        B = smp["batch_size"]
+        d, a = np.asarray(tr[0]["observation"]).size, np.asarray(tr[0]["action"]).size
+        if inter:
+            shapes = {"observation": (B, h, d), "action": (B, h, a), "reward": (B, h),
+                      "next_observation": (B, h, d), "terminated": (B, h), "truncated": (B, h)}
+        else:
+            shapes = {"observation": (B, d), "action": (B, a), "reward": (B, h),
+                      "next_observation": (B, d), "terminated": (B, h), "truncated": (B, h)}
+        bad = [k for k in _FIELDS if F[k].shape != shapes[k]]
+        C.expect(not bad, f"{pre}.shape",
+                 lambda: f"batch #{i} (horizon {h}): " + ", ".join(f"{k} {F[k].shape} != {shapes[k]}" for k in bad))
+        if bad:
+            continue
+        stats[view + "_batches"] += 1
+        n_now = smp["n_steps"]
+        for w in range(B):
+            stats[view + "_windows"] += 1
+            nz = np.nonzero(F["terminated"][w])[0]
+            k = int(nz[0]) if len(nz) else h - 1
+            if k < h - 1:
+                stats["prefix_cut_by_termination"] += 1
+            o0 = F["observation"][w][0] if inter else F["observation"][w]
+            try:
+                e, t = (int(round(float(o0[0]))), int(round(float(o0[1]))))
+            except (ValueError, OverflowError):
+                e, t = -1, -1
+            g = index.get((e, t))
+            ok0 = g is not None and g < n_now and _eq(o0, tr[g]["observation"])
+            C.expect(ok0, f"{pre}.start_is_no_environment_step",
+                     lambda: f"batch #{i} after {n_now} steps, window {w} (horizon {h}): first observation "
+                             f"{np.asarray(o0).tolist()} is not the observation before any executed step")
+            if not ok0:
+                continue
+            where = (f"batch #{i} sampled after {n_now} environment steps, window {w} of horizon {h} starting at "
+                     f"step {t} of episode {e} (episode length {ep_len.get(e)}), prefix of {k + 1} row(s)")
+            inside = True
+            for r in range(k + 1):
+                x = tr[g + r] if g + r < n_now else None
+                if x is None or x["episode"] != e:
+                    what = ("a step that had not been executed yet" if x is None else
+                            f"not a step of episode {e} (which ended after {ep_len.get(e)} steps by "
+                            f"{'termination' if tr[g + r - 1]['terminated'] else 'truncation'})")
+                    C.expect(False, f"{pre}.leaves_episode",
+                             lambda: f"{where}: row {r} is {what}: {_row_text(F, w, r, inter)}; the window splices "
+                                     f"in data from outside the episode without a terminated flag before it")
+                    inside = False
+                    break
+                C.expect(not x["truncated"], f"{pre}.contains_truncated_step",
+                         lambda: f"{where}: row {r} is the truncated step {x['t'] - 1} of episode {e}")
+                ref_r = np.float32(x["reward"])
+                C.expect(_eq(F["reward"][w][r], ref_r), f"{pre}.reward",
+                         lambda: f"{where}: row {r} reward {float(F['reward'][w][r])!r}, step {x['t'] - 1} of episode "
+                                 f"{e} returned {float(ref_r)!r}")
+                C.expect(bool(F["terminated"][w][r]) == x["terminated"] and bool(F["truncated"][w][r]) == x["truncated"],
+                         f"{pre}.flags",
+                         lambda: f"{where}: row {r} terminated={int(F['terminated'][w][r])} truncated="
+                                 f"{int(F['truncated'][w][r])}, the step returned terminated={x['terminated']} "
+                                 f"truncated={x['truncated']}")
+                if inter or r == 0:
+                    ob = F["observation"][w][r] if inter else F["observation"][w]
+                    ac = F["action"][w][r] if inter else F["action"][w]
+                    C.expect(_eq(ob, x["observation"]), f"{pre}.observation",
+                             lambda: f"{where}: row {r} observation {_where(ob)}, the observation before that step "
+                                     f"was {_where(x['observation'])}")
+                    C.expect(_eq(ac, np.asarray(x["action"], dtype=np.float32)), f"{pre}.action",
+                             lambda: f"{where}: row {r} action {np.asarray(ac).tolist()}, env.step received "
+                                     f"{np.asarray(x['action']).tolist()}")
+                if inter:
+                    C.expect(_eq(F["next_observation"][w][r], x["next_observation"]), f"{pre}.next_observation",
+                             lambda: f"{where}: row {r} successor {_where(F['next_observation'][w][r])}, the step "
+                                     f"returned {_where(x['next_observation'])}")
+            if not inter and inside and k == h - 1:
+                # no termination before the last row: the successor the critic bootstraps from is the one
+                # returned by the window's last step
+                x = tr[g + h - 1]
+                C.expect(_eq(F["next_observation"][w], x["next_observation"]), f"{pre}.next_observation",
+                         lambda: f"{where}: successor observation {_where(F['next_observation'][w])}, the window's "
+                                 f"last step returned {_where(x['next_observation'])}")
+            if inside:
+                stats[view + "_windows_ok_inside"] += 1
+
+
+def run_mrq_default(case):
+    import rl_blox.algorithm.mrq as mrq_module
+
+    name = case["routine"]
+    cfg = dict(case["cfg"], probe=False)
+    env, _ = R.make_env("mrq", case["env"])
+    state = R.build_state("mrq", env, cfg)
+    store = {"buffers": [], "ctor": [], "adds": [], "samples": []}
+    attr = "SubtrajectoryReplayBufferPER"
+    original = getattr(mrq_module, attr)
+    # R.patched restores the attribute in a finally block
+    with R.patched(mrq_module, attr, lambda orig: _recording_buffer_class(orig, store, lambda: env.n_steps)):
+        result = mrq_module.train_mrq(
+            env, state["policy_with_encoder"], state["encoder_optimizer"], state["policy_optimizer"], state["q"],
+            state["q_optimizer"], state["the_bins"], seed=int(cfg["seed"]),
+            total_timesteps=int(cfg["total_timesteps"]), buffer_size=int(cfg["buffer_size"]),
+            target_delay=int(cfg["target_delay"]), batch_size=int(cfg["batch_size"]),
+            learning_starts=int(cfg["learning_starts"]), encoder_horizon=int(cfg["encoder_horizon"]),
+            q_horizon=int(cfg["q_horizon"]), replay_buffer=None, progress_bar=False)
+    if getattr(mrq_module, attr) is not original:
+        raise HarnessError("rl_blox.algorithm.mrq.SubtrajectoryReplayBufferPER was not restored")
+    if len(store["buffers"]) != 1:
+        raise HarnessError(f"train_mrq(replay_buffer=None) instantiated {len(store['buffers'])} buffers through "
+                           f"rl_blox.algorithm.mrq.{attr}; the default-buffer path cannot be observed")
+    tr = history(env.log)
+    eh, qh = int(cfg["encoder_horizon"]), int(cfg["q_horizon"])
+    C = Clauses()
+    C.expect(any(b is store["buffers"][0] for b in result if not isinstance(b, int | float)),
+             f"{name}.returned_buffer", "the returned replay buffer is not the buffer the routine learned from")
+    _check_adds(C, name, store["adds"], tr, trunc_key="truncated")
+    stats = dict.fromkeys(["encoder_batches", "critic_batches", "encoder_windows", "critic_windows",
+                           "encoder_windows_ok_inside", "critic_windows_ok_inside", "prefix_cut_by_termination",
+                           "skipped_no_admissible_start"], 0)
+    if tr:
+        _check_sampled_windows(C, name, store["samples"], tr, stats)
+    C.flush()
+
+    H = max(eh, qh)
+    ends = [k for k, t in enumerate(tr) if t["terminated"] or t["truncated"]]
+    first_sample = min((s["n_steps"] for s in store["samples"] if s["admissible"]), default=None)
+    last_sample = max((s["n_steps"] for s in store["samples"] if s["admissible"]), default=-1)
+    seen = [k for k in ends if k + 1 < last_sample]  # episode ends stored before the last examined batch
+    nt = bool(stats["encoder_batches"] and stats["critic_batches"] and len(seen) >= 2
+              and any(tr[k]["truncated"] for k in seen))
+    lens = {k: tr[k]["t"] for k in seen}
+    labels = [name, "horizons:" + ("q>=enc+3" if qh >= eh + 3 else "q=enc+1..2" if qh > eh else
+                                   "enc>=q+3" if eh >= qh + 3 else "enc>q" if eh > qh else "enc=q"),
+              "default-buffer-wraps" if len(store["adds"]) + len(ends) > cfg["buffer_size"] else "default-buffer-no-wrap"]
+    labels += _history_labels(tr, int(cfg["learning_starts"]))
+    if any(tr[k]["truncated"] and lens[k] <= H for k in seen):
+        labels.append("truncated-episode-not-longer-than-horizon")
+    if any(tr[k]["truncated"] and lens[k] > H + 1 for k in seen):
+        labels.append("truncated-episode-longer-than-horizon")
+    if any(tr[k]["truncated"] and eh < lens[k] for k in seen) and qh >= eh + 3:
+        labels.append("truncated-episode-longer-than-encoder-horizon,q>=enc+3")
+    if stats["prefix_cut_by_termination"]:
+        labels.append("window-prefix-cut-by-termination")
+    if stats["skipped_no_admissible_start"]:
+        labels.append("batch-skipped:no-admissible-start")
+    if first_sample is not None and any(k + 1 <= first_sample for k in ends):
+        labels.append("episode-end-before-first-batch")
+    labels.append("windows-examined>=100" if stats["encoder_windows"] + stats["critic_windows"] >= 100
+                  else "windows-examined<100")
+    return Outcome(labels=labels, nontrivial=nt,
+                   fp=[name, case["env"]["script"], eh, qh, cfg["learning_starts"], cfg["buffer_size"],
+                       cfg["total_timesteps"], cfg["batch_size"], cfg["target_delay"]])
 
 
 # ---------------------------------------------------------------------------
@@ -801,9 +1101,9 @@ def run_tabular(case):
 
 # ---------------------------------------------------------------------------
 
-def _sub(name, builder, run, quick, thorough, cost, shards=2, rule=""):
+def _sub(name, builder, run, quick, thorough, cost, shards=2, rule="", simplify=simplify_history):
     return SubCheck(name, _strategy(builder, name), run, quick=quick, thorough=thorough, shards=shards,
-                    shards_thorough=8, shrink=False, suppress_too_slow=True, simplify=simplify_history,
+                    shards_thorough=8, shrink=False, suppress_too_slow=True, simplify=simplify,
                     cost=cost, rule=rule, min_nontrivial_frac=0.5)
 
 
@@ -819,6 +1119,9 @@ SUBCHECKS = [
     _sub("sac", build_offpolicy, run_offpolicy, 8, 100, 4.0, rule=_R_OFF),
     _sub("td7", build_offpolicy, run_offpolicy, 8, 100, 5.0, rule=_R_OFF),
     _sub("mrq", build_offpolicy, run_offpolicy, 6, 100, 8.0, rule=_R_OFF),
+    _sub("mrq_default_buffer", build_mrq_default, run_mrq_default, 8, 100, 8.0, shards=4,
+         simplify=simplify_mrq_default,
+         rule="encoder and critic batches sampled after >=2 stored episode ends, >=1 of them a truncation"),
     _sub("pets", build_offpolicy, run_offpolicy, 6, 100, 6.0, rule=_R_OFF),
     _sub("sample_trajectories", build_episodic, run_episodic, 10, 150, 1.0, rule=">=3 stored episodes"),
     _sub("reinforce", build_episodic, run_episodic, 6, 100, 3.0, rule=">=3 stored episodes"),
